@@ -85,6 +85,59 @@ pub fn run(run: &RunInfo) -> Summary {
             acc.count("capped", 1);
         }
     });
+    // two tokens that share their first 8 / 16 / 32 / 64 characters (open at the same time they must
+    // stay two transactions: closing one is not going idle), and histories with one transport fault
+    {
+        let mut passes: Vec<(String, Vec<crate::client::Op>, bool, usize, Option<u32>)> = vec![];
+        for k in [8usize, 16, 32, 64] {
+            let pre: String = (0..k).map(|i| (b'a' + (i % 26) as u8) as char).collect();
+            let (ta, tb) = (format!("{pre}1"), format!("{pre}2"));
+            for dangling in [None, Some(7u32)] {
+                passes.push((format!("shared-prefix={k}/dangling={dangling:?}"), ops(&[ta.as_str(), tb.as_str()]), false, depth - 1, dangling));
+            }
+        }
+        for dangling in [None, Some(7u32)] {
+            for first in 0..all_ops.len() {
+                passes.push((format!("faults/dangling={dangling:?}/first={first}"), all_ops.clone(), true, depth - 1, dangling));
+            }
+        }
+        let part = par_for(passes.len(), |ix, acc| {
+            let (name, p_ops, faults, d, dangling) = &passes[ix];
+            if skip_for_replay(run, &format!("c19/{name}/")) {
+                return;
+            }
+            let p = HistParams {
+                max: 2,
+                depth: *d,
+                ops: p_ops.clone(),
+                dangling: *dangling,
+                reservation_menu: vec![Outcome::Ok],
+                commit_menu: vec![Outcome::Ok, Outcome::Abort(0x6c)],
+                cancel_menu: vec![Outcome::Ok],
+                eod_menu: vec![Eod::Completion, Eod::Abort(0xa0)],
+                noise: false,
+                delay_ms: 0,
+                focus19: true,
+                rearm_dangling: false,
+                faults: *faults,
+            };
+            let first: Option<usize> = if *faults { name.rsplit("first=").next().and_then(|x| x.parse().ok()) } else { None };
+            dbx::explore(if *faults { 1 } else { 0 }, 200_000_000, |ctx| {
+                let o = history(ctx, &p, first, acc);
+                acc.count("executions", 1);
+                acc.count(if *faults { "w_fault_histories" } else { "w_long_token_histories" }, 1);
+                if !o.c19.is_empty() {
+                    let choices = ctx.choices();
+                    acc.violation(viol(
+                        format!("c19/{name}/choices={choices:?}"),
+                        format!("transactions_max_num = 2, {name}\nhistory:\n  {}\nviolations:\n  {}", o.trace.join("\n  "), o.c19.join("\n  ")),
+                        o.trace.len() as u64,
+                    ));
+                }
+            });
+        });
+        acc.merge(part);
+    }
     // the same dangling receipt number turns up again after every end-of-day (the terminal's counter
     // restarted): every clean-up has to reverse it again
     if !skip_for_replay(run, "c19/rearm/") {
@@ -208,7 +261,7 @@ pub fn run(run: &RunInfo) -> Summary {
         transitions: acc.get("transitions"),
         traces_validated: execs,
         distinct_nontrivial: acc.get("w_idle_cleanups") + acc.get("w_closed_while_others_open"),
-        rule: format!("real Feig client against the simulated terminal: transactions_max_num 1..=2 x terminal ledger {{no dangling pre-authorisation, one}} x all histories of depth {depth} over begin/commit/cancel x tokens {{A,B}} + read_card, terminal outcomes chosen lazily (reservation: success / abort / status information naming a receipt number followed by an abort; commit: completion with status, completion without status, abort; cancel: completion/abort; end-of-day: completion, status+completion, abort A0, 6C, FF); a second pass at depth - 1 with every single deviation of the reply shape of any exchange (no / two intermediate statuses, a print line, an extra status information); a pass at depth - 1 against a slow terminal whose every reply packet takes 45 s resp. 59 s (inside the per-packet time-out); a state-deduplicated breadth-first search from every reachable state until no new state appears; a pass in which the same dangling receipt number is pending again after every end-of-day; plus every dangling receipt number 0..=9999 and all 256 end-of-day abort codes on the histories begin;commit and begin;cancel with and without a dangling pre-authorisation. Temporal oracle on the terminal's request log. distinct_nontrivial = steps at which the clean-up rule or the no-end-of-day rule applied"),
+        rule: format!("real Feig client against the simulated terminal: transactions_max_num 1..=2 x terminal ledger {{no dangling pre-authorisation, one}} x all histories of depth {depth} over begin/commit/cancel x tokens {{A,B}} + read_card, terminal outcomes chosen lazily (reservation: success / abort / status information naming a receipt number followed by an abort; commit: completion with status, completion without status, abort; cancel: completion/abort; end-of-day: completion, status+completion, abort A0, 6C, FF); a second pass at depth - 1 with every single deviation of the reply shape of any exchange (no / two intermediate statuses, a print line, an extra status information); a pass at depth - 1 against a slow terminal whose every reply packet takes 45 s resp. 59 s (inside the per-packet time-out); a state-deduplicated breadth-first search from every reachable state until no new state appears; a pass in which the same dangling receipt number is pending again after every end-of-day; histories of depth - 1 with two tokens that share their first 8 / 16 / 32 / 64 characters; histories of depth - 1 with one transport fault (the fault menu of C09) at any packet the terminal sends: no clean-up and no end-of-day while another transaction is open, and a call that succeeds after the terminal completed it and leaves nothing open has requested end-of-day; plus every dangling receipt number 0..=9999 and all 256 end-of-day abort codes on the histories begin;commit and begin;cancel with and without a dangling pre-authorisation. Temporal oracle on the terminal's request log. distinct_nontrivial = steps at which the clean-up rule or the no-end-of-day rule applied"),
         exhaustive: true,
         required_witnesses: vec![
             "the state-deduplicated search reached its fixed point".into(),
